@@ -92,6 +92,10 @@ def binop(I, op, a, b, lineno=0, inplace=False):
                 if r is not NotImplementedVal:
                     return r
         I.raise_('TypeError', f'unsupported operand for {name}', lineno=lineno)
+    from . import arrays
+    if isinstance(a, arrays.SArr) and t is ast.Add and inplace:
+        arrays.extend(I, a, b, lineno)
+        return a
     # sequences
     if isinstance(a, PList) or isinstance(b, PList):
         if t is ast.Add and isinstance(a, PList) and isinstance(b, PList):
@@ -835,6 +839,12 @@ def bound_builtin_method(I, obj, name, lineno):
         tbl = NUM_METHODS
     elif isinstance(obj, GenVal):
         tbl = {}
+    else:
+        from . import arrays
+        if isinstance(obj, arrays.SArr):
+            tbl = {'append': lambda I, a, ln, v: arrays.append(I, a, v, ln),
+                   'extend': lambda I, a, ln, v: arrays.extend(I, a, v, ln),
+                   'index': lambda I, a, ln, v, start=0: arrays.index(I, a, v, start, ln)}
     if tbl is not None and name in tbl:
         f = tbl[name]
         return Builtin(f'{type(obj).__name__}.{name}', lambda *a, **k: f(I, obj, lineno, *a, **k))
@@ -1530,7 +1540,7 @@ def make_builtins(I) -> dict:
     def _bytes(x=b'', *a):
         if is_concrete(x):
             return bytes(x, *a)
-        if is_sym_int(x):
+        if is_sym_int(x) or is_sym_bv(x):
             from . import arrays
             return arrays.zeros(I, x)
         if isinstance(x, SSeq):
